@@ -143,7 +143,7 @@ def check(tier, seed, replay=None):
             docs_stored[id_] = ([unbits(int(x)) for x in f[3:]], int(f[2]), c.docs.get(id_, (None, b''))[1])
         if not docs_stored:
             stats['empty_collections'] += 1
-        res_lines = lines[di + 1:]
+        res_lines = [l for l in lines[di + 1:] if l.startswith('res ')]
         for (K, R, fk, fa, fb, qv), rl in zip(searches, res_lines):
             pct, rows = parse_res(rl)
             stats['searches'] += 1
